@@ -325,6 +325,25 @@ func casesC05(g *Gen) []*Case {
 			add(c)
 		}
 	}
+	// prose that follows @else / @end / a loop's @else directly is text, whatever English it begins with
+	for _, t := range []string{" if you have not paid yet, please do.", " if (n) is not one", " if", "  if (x)", "\nif (x) y", " IF x", "If (x)", " elseif", " else", ": if (a) b",
+		" (see below)", "(optional)", " in time", " end", "s", " for you", " each one", "If", "IF", "i", "I f"} {
+		for src, want := range map[string]string{
+			"@if(false)A@else" + t + "@end|":           t + "|",
+			"@if(true)A@else" + t + "@end|":            "A|",
+			"@if(true)A@end" + t + "|":                 "A" + t + "|",
+			"@each(v in [])x@else" + t + "@end|":       t + "|",
+			"@each(v in [1])x@end" + t + "|":           "x" + t + "|",
+			"@for(i = 0; i < 0; i++)x@else" + t + "@end|": t + "|",
+		} {
+			if strings.HasPrefix(t, "if") {
+				continue
+			}
+			c := evalCase("prose_after_else_and_end", src, nil)
+			c.Oracle = expectOut(want)
+			add(c)
+		}
+	}
 	return cs
 }
 
@@ -705,6 +724,40 @@ func casesC08(g *Gen) []*Case {
 			return ""
 		}
 		cs = append(cs, c)
+	}
+	// very short files (none, one, two bytes; a byte order mark, whole or cut) in every role: loading and rendering return
+	for _, content := range []string{"", "a", "ab", "\n", "{", "@", "{{", "}}", "\xef", "\xef\xbb", "\xef\xbb\xbf", "\xef\xbb\xbfx", "\xc3", "é", "\\", "\r"} {
+		returns := func(c *Case, impl string) string {
+			for _, r := range results(impl) {
+				if !(strings.HasPrefix(r, "NEWOK") || strings.HasPrefix(r, "NEWERR ") || strings.HasPrefix(r, "OK") || strings.HasPrefix(r, "ERR ") || strings.HasPrefix(r, "OSERR ") || r == "NOTPL") {
+					return "loading and rendering must return a result or an error: " + clip(r, 200)
+				}
+			}
+			return ""
+		}
+		for role := 0; role < 4; role++ {
+			t := newTree()
+			var ops []string
+			switch role {
+			case 0:
+				t.files["tpl/p.tw"] = content
+				ops = []string{opNew("tpl", ".tw", "", false), opStr("p", nil)}
+			case 1:
+				t.files["tpl/components/c.tw"] = content
+				t.files["tpl/p.tw"] = `<@component("~c")>`
+				ops = []string{opNew("tpl", ".tw", "", false), opStr("p", nil)}
+			case 2:
+				t.files["tpl/layouts/l.tw"] = content
+				t.files["tpl/p.tw"] = `@use("~l")x`
+				ops = []string{opNew("tpl", ".tw", "", false), opStr("p", nil)}
+			default:
+				t.files["f/x.tw"] = content
+				ops = []string{opEvf("f/x.tw", nil)}
+			}
+			c := histCase("short_files", t, ops, fmt.Sprintf("a file of %d bytes %q in role %d", len(content), content, role))
+			c.Oracle = returns
+			cs = append(cs, c)
+		}
 	}
 	// numbers cut off inside an exponent or a fraction, at the end of the input and inside code
 	for _, num := range []string{"1e", "1e+", "1e-", "2.5E", "2.5E-", "3e-", "1e6", "2.5E-3", "1.", "1.e", "1e1e", ".5", "1..2", "0x", "0x1F", "1_000", "1e+x", "9e999"} {
